@@ -6,7 +6,10 @@ from props import race_common as rc
 ID = "C04"
 LOG_LEVEL_INVARIANT = True      # (harness/vp.py: a sample of the cases again with logging at DEBUG; same observables)
 RUN_MODULE = "RunC04"
-RULE = ("one case = a history of 1-2 recorded operations on one real TapeRecorder; programs from the recorder DSL with "
+RULE = ("one case = a history of 1-2 recorded operations on one real TapeRecorder, or a recorded operation, 1-2 replays on the "
+        "same recorder (completing, or ending in a missing key / a key that cannot be built / an unknown id / an error of the "
+        "playback function / an exception or interrupt of the replayed operation - the caller survives all of them) and then "
+        "1-2 LIVE operations with recording on or off (random, plus a deterministic grid over the ways a replay ends); programs from the recorder DSL with "
         "every tolerated fault kind placed at random steps, singly and in combination (key cannot be built: failing "
         "resolver / unserializable argument / capture index out of range / failing fallback function; failing input and "
         "output data handlers; a data handler that discards; unserializable values so that copy and save fail; failing or "
@@ -116,8 +119,81 @@ def probe_cases():
     return out
 
 
+def _in(alias, arg, result, nxt):
+    return {"k": "in", "cfg": dict(alias=alias, resolver={"kind": "none"}, cap=None, static=True, property=False, handler="none",
+                                   prep_discards=False, run_missing=False, vmiss={"kind": "none"}, fallbacks={"kind": "none"}),
+            "body": {"k": "ret", "e": {"lit": result}}, "args": [{"lit": arg}], "kwargs": [], "next": nxt}
+
+
+def _out(alias, nxt):
+    return {"k": "out", "cfg": dict(alias=alias, static=True, handler="none", fail=True, default={"t": "none"}),
+            "body": {"k": "ret", "e": {"lit": {"t": "none"}}}, "args": [{"var": 0}], "kwargs": [], "next": nxt}
+
+
+PLAIN_PRM = dict(rate=[1, 1], ignore=False, skipped=False, copy=False)
+REPLAY_ENDINGS = ["completes", "missing-key", "function-raises", "key-creation-fails", "no-such-recording", "operation-raises",
+                  "interrupted"]
+
+
+def after_replay_grid():
+    """deterministic core of 'the recorder was used for a replay before': operation A is recorded, replayed with every way a
+    replay can end (completes / a key is missing / the playback function raises / a key cannot be built / unknown id / the
+    replayed operation raises / is interrupted), caught by the caller, then operation B - same aliases, other values - runs
+    LIVE with recording on or off: B must behave exactly as the undecorated code."""
+    i = lambda n: {"t": "int", "v": n}      # noqa: E731
+    ret = {"k": "ret", "e": {"var": 0}}
+    op = lambda body: dict(cls="OpA", classlevel=False, extractor={"kind": "none"}, body=body)     # noqa: E731
+    a = op(_in("load", i(1), i(5), _out("send", ret)))
+    pfs = {"completes": {"kind": "op", "op": rd.clean(a)},
+           "missing-key": {"kind": "op", "op": op(_in("load", i(2), i(5), _out("send", ret)))},
+           "function-raises": {"kind": "raises", "ty": "ValueError"},
+           "key-creation-fails": {"kind": "op", "op": op(_in("load", {"t": "unser", "v": 0}, i(5), ret))},
+           "no-such-recording": {"kind": "op", "op": rd.clean(a)},
+           "operation-raises": {"kind": "op", "op": op(_in("load", i(1), i(5), {"k": "raise", "ty": "KeyError"}))},
+           "interrupted": {"kind": "op", "op": op(_in("load", i(1), i(5), {"k": "interrupt"}))}}
+    for ending in REPLAY_ENDINGS:
+        for live in (True, False):
+            for b_body in (_in("load", i(1), i(7), _out("send", ret)), _in("load", i(3), i(7), {"k": "raise", "ty": "KeyError"}),
+                           _out("send", {"k": "ret", "e": {"lit": i(2)}})):
+                if b_body["k"] == "out":
+                    b_body = dict(b_body, args=[{"lit": i(9)}])
+                runs = [dict(kind="record", enabled=True, prm=dict(PLAIN_PRM), op=rd.clean(a), save_fails=False),
+                        dict(kind="play", target=7 if ending == "no-such-recording" else 0, pf=rd.clean(pfs[ending]),
+                             enabled=live),
+                        dict(kind="record", enabled=live, prm=dict(PLAIN_PRM), op=op(rd.clean(b_body)), save_fails=False)]
+                yield dict(interrupt_kind="keyboard", draws=[], runs=runs, cassette="memory", stream="after-replay-grid",
+                           replay_ending=ending)
+
+
+def after_replay_history(rng):
+    """random histories of the same region: recorded operations, replays of them on the same / another program / a raising
+    playback function (the caller survives whatever play() raises), then live operations again"""
+    wq = dict(W, fault=0.1, unser=0.03, discard=0.2, interrupt=0.05, raise_=0.15, enable=0.1)
+    runs = [dict(kind="record", enabled=True, prm=dict(PLAIN_PRM), op=rd.rand_opdef(rng, wq, budget=rng.choice([4, 8])),
+                 save_fails=False)]
+    for _ in range(rng.choice([1, 1, 2])):
+        r = rng.random()
+        if r < 0.25:
+            pf = {"kind": "op", "op": rd.clean(runs[0]["op"])}
+        elif r < 0.8:
+            pf = {"kind": "op", "op": rd.rand_opdef(rng, W, budget=8)}       # another program: keys missing / not buildable
+        else:
+            pf = {"kind": "raises", "ty": rng.choice(rd.EXC_TYPES)}
+        runs.append(dict(kind="play", target=0 if rng.random() < 0.9 else 3, pf=pf, enabled=rng.random() < 0.6))
+    for _ in range(rng.choice([1, 2])):
+        runs.append(dict(kind="record", enabled=rng.random() < 0.85, prm=rd.rand_prm(rng),
+                         op=rd.rand_opdef(rng, W, budget=rng.choice([6, 10])), save_fails=rng.random() < 0.1))
+    return dict(interrupt_kind=rng.choice(INTERRUPT_KINDS), draws=rd.rand_draws(rng), runs=runs, cassette="memory",
+                stream="after-replay")
+
+
 def generate(rng, tier):
     cases = probe_cases() + rc.race_cases(rng, tier)
+    fork = __import__("random").Random()
+    fork.setstate(rng.getstate())       # (a copy of the stream: the histories below stay what they were)
+    cases += list(after_replay_grid())
+    for _ in range(60 if tier == "quick" else 800):
+        cases.append(after_replay_history(fork))
     n = 260 if tier == "quick" else 4000
     for i in range(n):
         runs = []
@@ -182,7 +258,15 @@ def features(case):      # noqa: F811
         return {"probe:" + case["probe"], "probe-" + case["probe"] + ":" + (case.get("value") or case.get("shape"))}
     if rc.is_race(case):
         return rc.features(case)
-    return _hist_features(case)
+    fs = _hist_features(case)
+    if case.get("stream"):
+        fs.add("stream:" + case["stream"])
+    if case.get("replay_ending"):
+        fs.add("live-operation-after-a-replay-that:" + case["replay_ending"])
+    kinds = [r["kind"] for r in case["runs"]]
+    if "play" in kinds and "record" in kinds[kinds.index("play"):]:
+        fs.add("live-operation-after-a-replay")
+    return fs
 
 
 def nontrivial(case):    # noqa: F811
@@ -208,7 +292,8 @@ MANIFEST = dict(
          "(rec_exec/record_run, hand-written from tape_recorder.py) is tied to /repo on every run by executing random "
          "fault-laden programs on a real TapeRecorder built from the same DSL terms and comparing outcome + trace with "
          "vm_compute; the direct predicate compares the real run with a harness-side undecorated twin (outcome, exactly-once "
-         "trace, object identity, cassette untouched when disabled). Racing threads: a second model (Recorder/Threads.v) of the "
+         "trace, object identity, cassette untouched when disabled), also for operations that run live after the recorder "
+         "was used for replays that completed or failed in every way play() can fail. Racing threads: a second model (Recorder/Threads.v) of the "
          "recorder methods that touch the active recording as sequences of accesses to the shared fields, run by any number "
          "of threads under any schedule; Owicki-Gries invariants (finite checks by vm_compute lifted by forallb_forall, then "
          "induction over the schedule) prove that in the repaired code no method ever fails on a vanished recording and the "
